@@ -16,11 +16,13 @@
    integer rank does not depend on the spanning tree, on the order or orientation of the pairs (VoltageLattice.v); the whole
    specification dim_spec (None / GF(2) rank / integer rank) is invariant under lattice shifts of atoms, re-numbering of atoms
    and change of lattice basis.
-   Supercells are covered by tests only. *)
+   C09_invariance_full_statement (DimensionalityProofs.v) is PROVED (InvarianceFull.v): arbitrary shift vectors, any injective
+   re-numbering, any invertible change of lattice basis, with no side conditions beyond well-formedness of both presentations.
+   Supercells (a different number of atoms) are covered by tests only. *)
 From Coq Require Import List Arith ZArith Bool.
 Import ListNotations.
 From MV Require Import Geometry.RankDet Base.Graph Base.Cover Base.ZV3 Geometry.Dimensionality Geometry.DimensionalityProofs
-  Geometry.DimensionalityInvariance Geometry.RankElim Geometry.VoltageLattice.
+  Geometry.DimensionalityInvariance Geometry.RankElim Geometry.VoltageLattice Geometry.InvarianceFull.
 Local Open Scope nat_scope.
 
 (* get_dimensionality's control flow returns None exactly when two atoms of the cell contents are not
@@ -305,3 +307,18 @@ Theorem C09_spec_basis_change_invariance :
   wf_E n p E = true -> 0 < n -> dim_spec n p (basisE W E) = dim_spec n p E.
 Proof. exact dim_spec_basis_invariant. Qed.
 Print Assumptions C09_spec_basis_change_invariance.
+
+(* THE INVARIANCE STATEMENT IN FULL (kept as a Definition until now): the specification of one network does not depend on its
+   presentation -- arbitrary lattice shifts of atoms, any injective re-numbering, any invertible change of lattice basis *)
+Theorem C09_invariance_full_statement_proved : C09_invariance_full_statement.
+Proof. exact C09_invariance_full_statement_holds. Qed.
+Print Assumptions C09_invariance_full_statement_proved.
+(* non-vacuity: a well-formed connected network and a non-trivial re-presentation of it (sheared basis, atoms shifted) *)
+Example C09_invariance_nonvacuous :
+  let E := [(0, 1, (0, 0, 0)%Z); (1, 0, (1, 0, 0)%Z); (0, 0, (0, 1, 0)%Z)] in
+  let p := (true, true, false) in
+  wf_E 2 p E = true /\ dim_spec 2 p E = Some (2, 2) /\
+  dim_spec 2 p (shiftE (fun i => if Nat.eqb i 1 then (3, -2, 0)%Z else (0, 0, 0)%Z) E) = Some (2, 2) /\
+  dim_spec 2 p (basisE ((1, 1, 0), (0, 1, 0), (0, 0, 1))%Z E) = Some (2, 2).
+Proof. vm_compute. repeat split; reflexivity. Qed.
+Print Assumptions C09_invariance_nonvacuous.
